@@ -372,11 +372,24 @@ def check_export(chk, prog, rule="cli-glue"):
                "cnvlib.commands._cmd_export_bed / _vcf / _seg")
     a, b = table("a.cns"), table("b.cns")
     sexm = lambda f, stated: Marker("sample sex", of=f, stated=stated)
-    ret = {"cnvlib.export.export_bed": lambda bd: __import__("cnvlint.absval", fromlist=["DF"]).DF({}, 0)}
+    def bed_rows(bd):
+        from .absval import DF, Vec
+        d = DF({"chromosome": Vec(["chr1"], aligned=True), "from_file": Vec([src_of(bd["segments"])], aligned=True)}, 1, "range")
+        d.exact = True
+        return d
+    ret = {"cnvlib.export.export_bed": bed_rows}
+
+    def written_files(r):
+        # the table handed to the writer lists every input file's rows, in file order
+        w = [a for name, a, k in r.written if name == "write_dataframe"]
+        t = w[0][1] if w and len(w[0]) > 1 else None
+        return list(t.cols["from_file"].v) if t is not None and hasattr(t, "cols") and "from_file" in t.cols else None
     r = scenario(tb, prog, "_cmd_export_bed", ["a.cns", "b.cns", "--ploidy", "3", "-y", "-x", "m", "--show", "variant", "--diploid-parx-genome", "grch38", "-o", "o.bed"], ["cnvlib.export.export_bed"], {}, returns=ret,
                  extra=lambda r: ([show({k: v for k, v in c[1].items()}) for c in r.calls if c[0] == "export_bed"] == [
                      show(dict(segments=t, ploidy=3, is_haploid_x_reference=True, diploid_parx_genome="grch38", is_sample_female=sexm(f, "m"), label=f.split(".")[0], show="variant")) for t, f in ((a, "a.cns"), (b, "b.cns"))],
                      dict(export_bed_calls=[show(c[1]) for c in r.calls if c[0] == "export_bed"])))
+    scenario(tb, prog, "_cmd_export_bed", ["a.cns", "b.cns", "c.cns", "-o", "o.bed"], ["cnvlib.export.export_bed"], {}, returns=ret,
+             extra=lambda r: (written_files(r) == ["a.cns", "b.cns", "c.cns"], dict(rows_written_from=written_files(r))))
     scenario(tb, prog, "_cmd_export_bed", ["a.cns", "-i", "LABEL"], ["cnvlib.export.export_bed"], {"export_bed": dict(segments=a, ploidy=2, is_haploid_x_reference=False, diploid_parx_genome=None, label="LABEL", show="ploidy")}, returns=ret)
     scenario(tb, prog, "_cmd_export_bed", ["a.cns", "--label-genes", "--show", "all"], ["cnvlib.export.export_bed"], {"export_bed": dict(label=None, show="all")}, returns=ret)
     retv = {"cnvlib.export.export_vcf": lambda bd: ("HEADER", "BODY")}
@@ -402,3 +415,25 @@ def check_sex(chk, prog, rule="cli-glue"):
     scenario(tb, prog, "_cmd_sex", ["a.cnr", "b.cnr", "-y", "--diploid-parx-genome", "grch38", "-o", "s.tsv"], ["cnvlib.commands.do_sex"], {"do_sex": dict(is_haploid_x_reference=True, diploid_parx_genome="grch38")}, extra=files)
     scenario(tb, prog, "_cmd_sex", ["a.cnr", "b.cnr"], ["cnvlib.commands.do_sex"], {"do_sex": dict(is_haploid_x_reference=False, diploid_parx_genome=None)}, extra=files)
     tb.done("an option of `sex` does not reach do_sex with the value given, or an input file is left out")
+
+
+def check_import_seg(chk, prog, rule="cli-glue"):
+    from .abstools import Table
+    from .absval import DF, Vec
+    fi = prog.fn("cnvlib.commands._cmd_import_seg")
+    tb = Table(chk, rule, "`import-seg` command line -> parse_seg arguments: no chromosome mapping unless -c is given (`human` preset or from:to pairs), prefix, --from-log10; one .cns per sample", fi.loc(), fi.qn)
+    steps = ["skgenome.tabio.seg.parse_seg"]
+
+    def frame(b):
+        d = DF({"chromosome": Vec(["1"], aligned=True), "start": Vec([0], aligned=True), "end": Vec([10], aligned=True), "gene": Vec(["-"], aligned=True), "log2": Vec([0], aligned=True)}, 1, "range")
+        d.exact = True
+        return [("S1", d), ("S2", d)]
+    ret = {"skgenome.tabio.seg.parse_seg": frame}
+    for argv, want in ((["x.seg"], dict(infile="x.seg", chrom_names=None, chrom_prefix=None, from_log10=False)),
+                       (["x.seg", "-c", "human"], dict(chrom_names={"23": "X", "24": "Y", "25": "M"})),
+                       (["x.seg", "-c", "23:X,39:Y"], dict(chrom_names={"23": "X", "39": "Y"})),
+                       (["x.seg", "-p", "chr", "--from-log10", "-d", "out"], dict(chrom_names=None, chrom_prefix="chr", from_log10=True))):
+        outdir = "out" if "-d" in argv else "."
+        scenario(tb, prog, "_cmd_import_seg", argv, steps, {"parse_seg": want}, returns=ret,
+                 extra=lambda r, outdir=outdir: ([str(x) for x in _out(r)] == [f"{outdir}/S1.cns", f"{outdir}/S2.cns"], dict(written=[str(x) for x in _out(r)])))
+    tb.done("an option of `import-seg` does not reach parse_seg as given (e.g. a chromosome-number mapping is applied although none was asked for: chromosomes 23-25 of a non-human genome are renamed)")
